@@ -107,7 +107,8 @@ def run_determinism(chk, props, cases):
 # (name, property, file, regex, replacement): applied to the scratch copy only
 BREAKAGES = [
     ("jsonschema-walkObject-no-sort", "C03", "internal/jsonschema/generator.go",
-     r"sort\.Slice\(fields, func\(i, j int\) bool \{\n\t\treturn fields\[i\]\.Name < fields\[j\]\.Name\n\t\}\)", "_ = sort.Strings"),
+     [r"sort\.Slice\(fields, func\(i, j int\) bool \{\n\t\treturn fields\[i\]\.Name < fields\[j\]\.Name\n\t\}\)", r"\tsort\.Strings\(names\)\n\n\tfields := make"],
+     ["_ = sort.Strings", "\tfields := make"]),
     ("consolidate-unsorted", "C03", "internal/ast/schema.go", r"\tsort\.Strings\(packages\)\n", "\tpackages = packages[:0]\n\tfor pkg := range byPackage {\n\t\tpackages = append(packages, pkg)\n\t}\n\tsort.Strings(packages[:0])\n"),
     ("orderedmap-iterate-records", "C19", "internal/orderedmap/map.go",
      r"func \(orderedMap \*Map\[K, V\]\) Iterate\(callback func\(key K, value V\)\) \{\n\tfor _, key := range orderedMap\.order \{\n\t\tcallback\(key, orderedMap\.records\[key\]\)\n\t\}",
@@ -138,10 +139,12 @@ def run_sensitivity(chk, only=None):
         def patch(repo_dir, rel=rel, pat=pat, rep=rep):
             p = os.path.join(repo_dir, rel)
             s = open(p).read()
-            s2, n = re.subn(pat, lambda m: rep, s, count=1)
-            if n != 1:
-                raise SystemExit("selftest: breakage %s does not apply any more (pattern not found in %s)" % (name, rel))
-            open(p, "w").write(s2)
+            pats, reps = (pat, rep) if isinstance(pat, list) else ([pat], [rep])
+            for one, by in zip(pats, reps):
+                s, n = re.subn(one, lambda m, by=by: by, s, count=1)
+                if n != 1:
+                    raise SystemExit("selftest: breakage %s does not apply any more (pattern not found in %s)" % (name, rel))
+            open(p, "w").write(s)
 
         t0 = time.time()
         root, binp = chk.build(extra_patch=patch, tag="-" + name)
